@@ -8,6 +8,12 @@ CHECKS = {
          "Patterns (shape, which cell holds which class) are enumerated within the stated bounds; NumPy semantics come from the shim (dtype/shape by shadow execution on real NumPy).", "symbolic execution of from_array/to_array with symbolic dict keys + z3 (LIA)", "5 C01"),
  "C02": ("Bounded symbolic execution of ccube/ffunc_count/iindex.slices1d from the working tree over a NumPy shim; N and all row ids are solver variables (N < 2^30), key presence / D / E / shapes are structure; every cell is compared with a brute-force count written in SMT.",
          "Intersection kernel replaced by its set-algebra summary (discharged by C08); NumPy shim trusted (validated by running the repository's tests through it and per-path replays).", T + "; kernel summaries (assume-guarantee with C08)", "5 C02"),
+ "C03": ("Symbolic execution of both cube types (ccube+ffuncs, xcube+xfuncs) from the working tree on the same symbolic row data: categories, fact values, validity bits, hidden values and weights are solver variables; every output cell of both cubes is compared with a direct per-cell computation written in SMT (missing mask exactly, values as exact rationals).",
+         "float64 = exact rationals + NaN/inf tags (rounding outside the claim); N<=3 (quick)/4, D<=2, E<=3, K<=2; weights from a symbolic palette {0,1/2,1,3} in the quick tier; NumPy shim validated by the repository's own tests and per-path replays.", T + "; tagged exact-rational float model", "5 C03"),
+ "C04": ("Same harness as C03 run with all three report formats on the same symbolic data in one path (symbolic integer sentinel): each format's missing mask must equal the rule (no row / all-or-any missing by policy / zero valid weight for a mean) and the formats must agree cell by cell.",
+         "As C03; excluded as the property says: valid_count with a plain replacement value under propagation.", T + "; tagged exact-rational float model", "5 C04"),
+ "C13": ("C03's harness on dimensions with 2 or 3 axes (unequal extra extents, two multi-axis dimensions at once): result shape = extras ++ categories (++ columns) and the block at every extra-axis position equals the direct computation over that position's 1-D slices, for both cube types and all four shared aggregates.",
+         "As C03; extra extents up to (2,3) quick / (3,2),(1,4),(2,2)+(2,) thorough.", T, "5 C13"),
  "C08": ("Bounded symbolic execution of the lowered set_operations.pyx: every path for every length tuple within the cap, element magnitudes are solver variables over all of uint32; each path's result is checked against a set-algebra specification written in SMT; z3 decides every VC.",
          "Line-level .pyx->Python lowering and the kernel NumPy stub are trusted (cross-validated per path against a scratch build); operands longer than the cap (quick 3 / thorough 5) are outside the claim.", "symbolic execution of the lowered Cython source + z3 (QF_LIA) per path", "5 C08"),
  "C09": ("Same exploration as C08 with every memoryview access in a boundscheck(False) function carrying the obligation 0 <= i < shape[0]; a feasible path with an out-of-range access is a violation, replayed on a scratch build compiled with boundscheck(True).",
